@@ -43,7 +43,7 @@ def make_case(ctx, i):
     for f in files:
         f["path"] = f["path"][1:]
     defs = c01.merged_defs(files)
-    intro = IG.Intro(defs, r, drop_optional=r.chance(1, 2), meta_types=False).result()
+    intro = IG.Intro(defs, r, drop_optional=r.chance(1, 2), meta_types=r.chance(1, 2)).result()
     docs = []
     kinds = {"enum": next((d["name"] for d in defs if d["k"] == "enum"), None), "input": next((d["name"] for d in defs if d["k"] == "input"), None), "scalar": "Int"}
     lone = next((d["name"] for d in defs if d["k"] == "object" and d["name"] not in ("Q", "Query", "M", "Mutation")), "Lone")
